@@ -826,40 +826,62 @@ pub fn type_choices_from_group_choice<'a>(
   type_choices
 }
 
-/// Is the given identifier associated with a null data type
-pub fn is_ident_null_data_type(cddl: &CDDL, ident: &Identifier) -> bool {
-  if let Token::NULL | Token::NIL = lookup_ident(ident.ident) {
+/// Is `ident` a prelude name accepted by `is_match`, or the name of a type rule
+/// one of whose type choices is (transitively) such a name?
+///
+/// `path` holds the rule names currently being expanded: a cyclic alias
+/// (`a = b`, `b = a`, possibly behind a control operator such as
+/// `a = b .size 3`) ends the search instead of recursing until the stack
+/// overflows.
+fn ident_or_alias_matches(
+  cddl: &CDDL,
+  ident: &Identifier,
+  is_match: &dyn Fn(&Token) -> bool,
+  path: &mut Vec<String>,
+) -> bool {
+  if is_match(&lookup_ident(ident.ident)) {
     return true;
   }
 
-  cddl.rules.iter().any(|r| match r {
-    Rule::Type { rule, .. } if &rule.name == ident => rule.value.type_choices.iter().any(|tc| {
+  let name = ident.to_string();
+  if path.contains(&name) {
+    return false;
+  }
+  path.push(name);
+
+  let found = cddl.rules.iter().any(|r| match r {
+    Rule::Type { rule, .. } if rule.name == *ident => rule.value.type_choices.iter().any(|tc| {
       if let Type2::Typename { ident, .. } = &tc.type1.type2 {
-        is_ident_null_data_type(cddl, ident)
+        ident_or_alias_matches(cddl, ident, is_match, path)
       } else {
         false
       }
     }),
     _ => false,
-  })
+  });
+
+  path.pop();
+  found
+}
+
+/// Is the given identifier associated with a null data type
+pub fn is_ident_null_data_type(cddl: &CDDL, ident: &Identifier) -> bool {
+  ident_or_alias_matches(
+    cddl,
+    ident,
+    &|token| matches!(token, Token::NULL | Token::NIL),
+    &mut Vec::new(),
+  )
 }
 
 /// Is the given identifier associated with a boolean data type
 pub fn is_ident_bool_data_type(cddl: &CDDL, ident: &Identifier) -> bool {
-  if let Token::BOOL = lookup_ident(ident.ident) {
-    return true;
-  }
-
-  cddl.rules.iter().any(|r| match r {
-    Rule::Type { rule, .. } if &rule.name == ident => rule.value.type_choices.iter().any(|tc| {
-      if let Type2::Typename { ident, .. } = &tc.type1.type2 {
-        is_ident_bool_data_type(cddl, ident)
-      } else {
-        false
-      }
-    }),
-    _ => false,
-  })
+  ident_or_alias_matches(
+    cddl,
+    ident,
+    &|token| matches!(token, Token::BOOL),
+    &mut Vec::new(),
+  )
 }
 
 /// Does the given boolean identifier match the boolean value
@@ -890,176 +912,92 @@ pub fn ident_matches_bool_value(cddl: &CDDL, ident: &Identifier, value: bool) ->
 
 /// Is the given identifier associated with a URI data type
 pub fn is_ident_uri_data_type(cddl: &CDDL, ident: &Identifier) -> bool {
-  if let Token::URI = lookup_ident(ident.ident) {
-    return true;
-  }
-
-  cddl.rules.iter().any(|r| match r {
-    Rule::Type { rule, .. } if &rule.name == ident => rule.value.type_choices.iter().any(|tc| {
-      if let Type2::Typename { ident, .. } = &tc.type1.type2 {
-        is_ident_uri_data_type(cddl, ident)
-      } else {
-        false
-      }
-    }),
-    _ => false,
-  })
+  ident_or_alias_matches(
+    cddl,
+    ident,
+    &|token| matches!(token, Token::URI),
+    &mut Vec::new(),
+  )
 }
 
 /// Is the given identifier associated with a b64url data type
 pub fn is_ident_b64url_data_type(cddl: &CDDL, ident: &Identifier) -> bool {
-  if let Token::B64URL = lookup_ident(ident.ident) {
-    return true;
-  }
-
-  cddl.rules.iter().any(|r| match r {
-    Rule::Type { rule, .. } if &rule.name == ident => rule.value.type_choices.iter().any(|tc| {
-      if let Type2::Typename { ident, .. } = &tc.type1.type2 {
-        is_ident_b64url_data_type(cddl, ident)
-      } else {
-        false
-      }
-    }),
-    _ => false,
-  })
+  ident_or_alias_matches(
+    cddl,
+    ident,
+    &|token| matches!(token, Token::B64URL),
+    &mut Vec::new(),
+  )
 }
 
 /// Is the given identifier associated with a tdate data type
 pub fn is_ident_tdate_data_type(cddl: &CDDL, ident: &Identifier) -> bool {
-  if let Token::TDATE = lookup_ident(ident.ident) {
-    return true;
-  }
-
-  cddl.rules.iter().any(|r| match r {
-    Rule::Type { rule, .. } if &rule.name == ident => rule.value.type_choices.iter().any(|tc| {
-      if let Type2::Typename { ident, .. } = &tc.type1.type2 {
-        is_ident_tdate_data_type(cddl, ident)
-      } else {
-        false
-      }
-    }),
-    _ => false,
-  })
+  ident_or_alias_matches(
+    cddl,
+    ident,
+    &|token| matches!(token, Token::TDATE),
+    &mut Vec::new(),
+  )
 }
 
 /// Is the given identifier associated with a time data type
 pub fn is_ident_time_data_type(cddl: &CDDL, ident: &Identifier) -> bool {
-  if let Token::TIME = lookup_ident(ident.ident) {
-    return true;
-  }
-
-  cddl.rules.iter().any(|r| match r {
-    Rule::Type { rule, .. } if &rule.name == ident => rule.value.type_choices.iter().any(|tc| {
-      if let Type2::Typename { ident, .. } = &tc.type1.type2 {
-        is_ident_time_data_type(cddl, ident)
-      } else {
-        false
-      }
-    }),
-    _ => false,
-  })
+  ident_or_alias_matches(
+    cddl,
+    ident,
+    &|token| matches!(token, Token::TIME),
+    &mut Vec::new(),
+  )
 }
 
 /// Is the given identifier associated with a decfrac data type
 pub fn is_ident_decfrac_data_type(cddl: &CDDL, ident: &Identifier) -> bool {
-  if let Token::DECFRAC = lookup_ident(ident.ident) {
-    return true;
-  }
-
-  cddl.rules.iter().any(|r| match r {
-    Rule::Type { rule, .. } if &rule.name == ident => rule.value.type_choices.iter().any(|tc| {
-      if let Type2::Typename { ident, .. } = &tc.type1.type2 {
-        is_ident_decfrac_data_type(cddl, ident)
-      } else {
-        false
-      }
-    }),
-    _ => false,
-  })
+  ident_or_alias_matches(
+    cddl,
+    ident,
+    &|token| matches!(token, Token::DECFRAC),
+    &mut Vec::new(),
+  )
 }
 
 /// Is the given identifier associated with a bigfloat data type
 pub fn is_ident_bigfloat_data_type(cddl: &CDDL, ident: &Identifier) -> bool {
-  if let Token::BIGFLOAT = lookup_ident(ident.ident) {
-    return true;
-  }
-
-  cddl.rules.iter().any(|r| match r {
-    Rule::Type { rule, .. } if &rule.name == ident => rule.value.type_choices.iter().any(|tc| {
-      if let Type2::Typename { ident, .. } = &tc.type1.type2 {
-        is_ident_bigfloat_data_type(cddl, ident)
-      } else {
-        false
-      }
-    }),
-    _ => false,
-  })
+  ident_or_alias_matches(
+    cddl,
+    ident,
+    &|token| matches!(token, Token::BIGFLOAT),
+    &mut Vec::new(),
+  )
 }
 
 /// Is the given identifier associated with a numeric data type
 pub fn is_ident_numeric_data_type(cddl: &CDDL, ident: &Identifier) -> bool {
-  if let Token::UINT
-  | Token::NINT
-  | Token::INTEGER
-  | Token::INT
-  | Token::NUMBER
-  | Token::FLOAT
-  | Token::FLOAT16
-  | Token::FLOAT32
-  | Token::FLOAT64
-  | Token::FLOAT1632
-  | Token::FLOAT3264
-  | Token::UNSIGNED = lookup_ident(ident.ident)
-  {
-    return true;
-  }
-
-  cddl.rules.iter().any(|r| match r {
-    Rule::Type { rule, .. } if rule.name == *ident => rule.value.type_choices.iter().any(|tc| {
-      if let Type2::Typename { ident, .. } = &tc.type1.type2 {
-        is_ident_numeric_data_type(cddl, ident)
-      } else {
-        false
-      }
-    }),
-    _ => false,
-  })
+  ident_or_alias_matches(
+    cddl,
+    ident,
+    &|token| matches!(token, Token::UINT | Token::NINT | Token::INTEGER | Token::INT | Token::NUMBER | Token::FLOAT | Token::FLOAT16 | Token::FLOAT32 | Token::FLOAT64 | Token::FLOAT1632 | Token::FLOAT3264 | Token::UNSIGNED),
+    &mut Vec::new(),
+  )
 }
 
 /// Is the given identifier associated with a uint data type
 pub fn is_ident_uint_data_type(cddl: &CDDL, ident: &Identifier) -> bool {
-  if let Token::UINT = lookup_ident(ident.ident) {
-    return true;
-  }
-
-  cddl.rules.iter().any(|r| match r {
-    Rule::Type { rule, .. } if rule.name == *ident => rule.value.type_choices.iter().any(|tc| {
-      if let Type2::Typename { ident, .. } = &tc.type1.type2 {
-        is_ident_uint_data_type(cddl, ident)
-      } else {
-        false
-      }
-    }),
-    _ => false,
-  })
+  ident_or_alias_matches(
+    cddl,
+    ident,
+    &|token| matches!(token, Token::UINT),
+    &mut Vec::new(),
+  )
 }
 
 /// Is the given identifier associated with a nint data type
 pub fn is_ident_nint_data_type(cddl: &CDDL, ident: &Identifier) -> bool {
-  if let Token::NINT = lookup_ident(ident.ident) {
-    return true;
-  }
-
-  cddl.rules.iter().any(|r| match r {
-    Rule::Type { rule, .. } if rule.name == *ident => rule.value.type_choices.iter().any(|tc| {
-      if let Type2::Typename { ident, .. } = &tc.type1.type2 {
-        is_ident_nint_data_type(cddl, ident)
-      } else {
-        false
-      }
-    }),
-    _ => false,
-  })
+  ident_or_alias_matches(
+    cddl,
+    ident,
+    &|token| matches!(token, Token::NINT),
+    &mut Vec::new(),
+  )
 }
 
 /// Numbers are defined as `number = int / float`
@@ -1106,22 +1044,12 @@ pub fn ident_numeric_kind(cddl: &CDDL, ident: &Identifier) -> Option<NumericKind
   note = "not mutually exclusive with is_ident_float_data_type (`number` matches both); use ident_numeric_kind and handle NumericKind::Both"
 )]
 pub fn is_ident_integer_data_type(cddl: &CDDL, ident: &Identifier) -> bool {
-  if let Token::INT | Token::INTEGER | Token::NINT | Token::UINT | Token::NUMBER | Token::UNSIGNED =
-    lookup_ident(ident.ident)
-  {
-    return true;
-  }
-
-  cddl.rules.iter().any(|r| match r {
-    Rule::Type { rule, .. } if rule.name == *ident => rule.value.type_choices.iter().any(|tc| {
-      if let Type2::Typename { ident, .. } = &tc.type1.type2 {
-        is_ident_integer_data_type(cddl, ident)
-      } else {
-        false
-      }
-    }),
-    _ => false,
-  })
+  ident_or_alias_matches(
+    cddl,
+    ident,
+    &|token| matches!(token, Token::INT | Token::INTEGER | Token::NINT | Token::UINT | Token::NUMBER | Token::UNSIGNED),
+    &mut Vec::new(),
+  )
 }
 
 /// Does the given identifier denote a bignum data type that accepts CBOR tag
@@ -1157,81 +1085,42 @@ pub fn is_ident_bignum_data_type(cddl: &CDDL, ident: &Identifier) -> bool {
   note = "not mutually exclusive with is_ident_integer_data_type (`number` matches both); use ident_numeric_kind and handle NumericKind::Both"
 )]
 pub fn is_ident_float_data_type(cddl: &CDDL, ident: &Identifier) -> bool {
-  if let Token::FLOAT
-  | Token::FLOAT16
-  | Token::FLOAT1632
-  | Token::FLOAT32
-  | Token::FLOAT3264
-  | Token::FLOAT64
-  | Token::NUMBER = lookup_ident(ident.ident)
-  {
-    return true;
-  }
-
-  cddl.rules.iter().any(|r| match r {
-    Rule::Type { rule, .. } if rule.name == *ident => rule.value.type_choices.iter().any(|tc| {
-      if let Type2::Typename { ident, .. } = &tc.type1.type2 {
-        is_ident_float_data_type(cddl, ident)
-      } else {
-        false
-      }
-    }),
-    _ => false,
-  })
+  ident_or_alias_matches(
+    cddl,
+    ident,
+    &|token| matches!(token, Token::FLOAT | Token::FLOAT16 | Token::FLOAT1632 | Token::FLOAT32 | Token::FLOAT3264 | Token::FLOAT64 | Token::NUMBER),
+    &mut Vec::new(),
+  )
 }
 
 /// Is the given identifier associated with a string data type
 pub fn is_ident_string_data_type(cddl: &CDDL, ident: &Identifier) -> bool {
-  if let Token::TEXT | Token::TSTR = lookup_ident(ident.ident) {
-    return true;
-  }
-
-  cddl.rules.iter().any(|r| match r {
-    Rule::Type { rule, .. } if rule.name == *ident => rule.value.type_choices.iter().any(|tc| {
-      if let Type2::Typename { ident, .. } = &tc.type1.type2 {
-        is_ident_string_data_type(cddl, ident)
-      } else {
-        false
-      }
-    }),
-    _ => false,
-  })
+  ident_or_alias_matches(
+    cddl,
+    ident,
+    &|token| matches!(token, Token::TEXT | Token::TSTR),
+    &mut Vec::new(),
+  )
 }
 
 /// Is the given identifier associated with the any type
 pub fn is_ident_any_type(cddl: &CDDL, ident: &Identifier) -> bool {
-  if let Token::ANY = lookup_ident(ident.ident) {
-    return true;
-  }
-
-  cddl.rules.iter().any(|r| match r {
-    Rule::Type { rule, .. } if rule.name == *ident => rule.value.type_choices.iter().any(|tc| {
-      if let Type2::Typename { ident, .. } = &tc.type1.type2 {
-        is_ident_any_type(cddl, ident)
-      } else {
-        false
-      }
-    }),
-    _ => false,
-  })
+  ident_or_alias_matches(
+    cddl,
+    ident,
+    &|token| matches!(token, Token::ANY),
+    &mut Vec::new(),
+  )
 }
 
 /// Is the given identifier associated with a byte string data type
 pub fn is_ident_byte_string_data_type(cddl: &CDDL, ident: &Identifier) -> bool {
-  if let Token::BSTR | Token::BYTES = lookup_ident(ident.ident) {
-    return true;
-  }
-
-  cddl.rules.iter().any(|r| match r {
-    Rule::Type { rule, .. } if rule.name == *ident => rule.value.type_choices.iter().any(|tc| {
-      if let Type2::Typename { ident, .. } = &tc.type1.type2 {
-        is_ident_byte_string_data_type(cddl, ident)
-      } else {
-        false
-      }
-    }),
-    _ => false,
-  })
+  ident_or_alias_matches(
+    cddl,
+    ident,
+    &|token| matches!(token, Token::BSTR | Token::BYTES),
+    &mut Vec::new(),
+  )
 }
 
 /// Retrieve number of group entries from a group. This is currently only used
